@@ -9,7 +9,7 @@ COMMON_TB = [KERNEL, TIE,
 
 DATA_IMPORTS = "Base.Cfg Model.Flags Model.Args Model.FlagsSer Model.Data Model.Consts Model.LineTable Model.LineTableSer Model.Blocks Model.CodeData Model.DataSer Gen.Cfg{TAG}"
 VIEW_IMPORTS = DATA_IMPORTS + " Spec.Lnotab Spec.Dis Model.ViewSer Proofs.C02_Statements"
-JSON_IMPORTS = DATA_IMPORTS + " Model.Json Model.JsonSer Proofs.C07_Statements"
+JSON_IMPORTS = DATA_IMPORTS + " Model.Json Model.JsonSer Proofs.C07_Statements Spec.JsonSchema Gen.SrcSchema"
 
 PROPS = {
     "C10": {
